@@ -28,13 +28,11 @@ CLAIMED["C03"] = (
     "DESIGN.md 4 C03")
 
 CLAIMED["C04"] = (
-    "Coq proof (heap conservation lemmas, schedule-independence of the index-addressed open) + differential correspondence SelectLogs vs model + in-Coq validity check of every observed merge",
-    "Proved for all inputs: open_schedule_indep (the slot array after Wait is the same for EVERY completion order), heap_push_conserves / heap_pop_conserves "
-    "(container/heap as transliterated never loses or duplicates an element, any less). The faithful model of mergeIter (exact container/heap up/down, "
-    "init/Next refill logic) is compared with dockerlog.Querier.SelectLogs over a fake Docker daemon on the exact output sequence (ties included) under several "
-    "scripted completion orders per case (thorough: all n! for n<=5), and every observed stream is checked inside Coq by valid_merge (per-source subsequence = source, "
-    "hence each record exactly once; sorted when the sources are) and for equality across completion orders. PARTIAL: the theorems merge_perm / merge_keeps_source_order / "
-    "merge_sorted about the faithful merge loop (heap invariant) are not yet proved; until then those three conclusions rest on valid_merge evaluated on observed traces.",
+    "Coq proof (heap-order invariant of container/heap's exact up/down; loop invariants of mergeIter: per-source order, fedness, lower bounds; schedule-independence of the index-addressed open) + differential correspondence SelectLogs vs model + in-Coq validity check of every observed merge",
+    "Proved for all inputs about the faithful model of mergeIter (exact container/heap up/down, init/Next refill logic): merge_perm (every record of every source exactly once), merge_keeps_source_order (each source's own order, "
+    "regular end), merge_sorted (sources in time order => merged stream in time order, ties allowed), heap_push_keeps_order / heap_pop_returns_min (the root is a minimum, for any less whose negation is transitive and total), "
+    "heap_push_conserves / heap_pop_conserves, open_schedule_indep (the slot array after Wait is the same for EVERY completion order). The model is compared with dockerlog.Querier.SelectLogs over a fake Docker daemon on the exact "
+    "output sequence (ties included) under several scripted completion orders per case (thorough: all n! for n<=5), and every observed stream is also checked inside Coq by valid_merge and for equality across completion orders.",
     "Trusted: Coq kernel + vm_compute; goroutine scheduling modelled as completion order of open tasks (fake daemon releases blocked ContainerLogs calls in the scripted order); "
     "harness + fake Docker client; Go memory-model race freedom is not covered here (see C18).",
     "DESIGN.md 4 C04")
